@@ -354,7 +354,16 @@ impl Session<'_> {
                 Ok(None)
             }
             DoesNotExist => Ok(None),
-            Unchanged { state, .. } | Changed { state } => Ok(state.remove(key)),
+            Unchanged { state, .. } => {
+                let value = state.remove(key);
+                if value.is_some() {
+                    // The state has changed: it must be persisted when syncing.
+                    let state = std::mem::take(state);
+                    self.server_state = new_cell_with(Some(ServerState::Changed { state }));
+                }
+                Ok(value)
+            }
+            Changed { state } => Ok(state.remove(key)),
         }
     }
 
